@@ -19,6 +19,14 @@ CHECKS = {
    text="TLC explores every interleaving of per-object Put/Write/Close jobs with up to 2 injected step failures (and a kill for disk atomic puts), checks ErrorTransparency, FaultReported, Count, AtomicVisible, FailedAtomicLeavesNothing and termination, and emits each terminal (fault plan -> outcome); every plan is replayed on Copy, CopyPath, CopyReader, CopyReadObject, PutPath, Untar, Unzip, PutFileSetToBucket and WriteResponse through a fault-injecting WriteBucket over memory and disk; the real storageos atomic writer is observed at every primitive step through the verif hooks, with real rename failures, real write failures under RLIMIT_FSIZE and real SIGKILLs at every kill point in child processes (directly, through a prefix-mapped view and through LimitWriteBucket).",
    note="Faults above the bucket are injected by a wrapper; only what the property states is an alarm (success with missing/truncated output, unreported fault, over-count, torn or leftover atomic object); other model/code differences are listed as divergences in the evidence.",
    ref="4/C15"),
+ "C02": dict(engine="thread", technique="TLC on Parallelize.tla; traces of the real thread.Parallelize validated by ParallelizeTrace.tla; hook-gated schedules and perturbed environments on end-to-end operations",
+   text="TLC checks every interleaving of dispatcher and job steps of Parallelize.tla (semaphore bound, every job error recorded exactly once, skipped jobs explained by a context error, nil iff clean, termination) for all parameter combinations; the verif hooks in thread.Parallelize record every call made by a randomised driver and by 11 end-to-end operations (build+marshal, lint, breaking, format, copy, code-generator requests, dependency graph, digests, module order, type filter, ls-files) and TLC validates each recorded call against the specification; the same hooks gate job completion (fifo / lifo / seeded random) while parallelism, GOMAXPROCS, storage walk order and argument order are permuted and runs repeated, and every output must be byte-identical to the canonical run.",
+   note="Goroutines not created by thread.Parallelize (inside protocompile) are not steered; environments are sampled (seeded), interleavings of the model are exhaustive within n<=5 jobs.",
+   ref="4/C02"),
+ "C09": dict(engine="cache", technique="TLC state graph of ModuleCache.tla covered by transition tours that are replayed on real ModuleDataStore instances with gated storage and lock operations, faults, crashes and tampering",
+   text="TLC explores every interleaving of 2-3 processes storing/loading one cache entry (dir and tar layouts) with write faults, process crashes between any two storage/lock operations and single-file tampering, and checks NoFalseComplete, Repair, LockSafety, NoWriteAfterComplete and absence of stuck states; every transition is covered by a tour that is executed on real stores: each process is a goroutine with a real ModuleDataStore over a gating wrapper of one real disk bucket and a gating Locker; the name of every operation the store issues, the classified cache directory after every step, and the results of PutModuleDatas, GetModuleDatasForModuleKeys and of the lazy content access are compared with the specification.",
+   note="One entry, files copied sequentially (parallelism 1); locks are an in-process table (the flock implementation itself is not part of the replay); faults at Put/Write of files and Put of the marker (failures inside the disk atomic writer: C15).",
+   ref="4/C09"),
 }
 
 NOT_APPLICABLE = {}
